@@ -87,6 +87,11 @@ def extract(cfg, repo=None, target_tag=""):
 
 
 def load_facts(cfg, repo=None, target_tag=""):
+    dev = os.environ.get("MQ_DEV_FACTS")  # development only: reuse a previously extracted fact file
+    if dev and os.path.exists(os.path.join(dev, "%s.json" % cfg)):
+        f = core.load(os.path.join(dev, "%s.json" % cfg))
+        f.cfgname = cfg
+        return f
     fpath, nonce = extract(cfg, repo, target_tag)
     f = core.load(fpath)
     if f.nonce != nonce:
